@@ -140,9 +140,15 @@ def massaction_job(interp, c, case, domain, routes, modes=None):
         reactions.append((list(reactants), [], "massaction", {"k": "kp%d" % i} if named else {"k": ks[i]}))
         if named:
             params.append(("kp%d" % i, ks[i]))
-    M = T.ns["Model"](species=list(species), reactions=reactions, parameters=params)
     tag = "massaction[%s]%s" % (" ; ".join("*".join(r) or "0" for r in rxns), "/named" if named else "/numeric")
     syms = {"V": V, "t": t, **{"k%d" % i: k for i, k in enumerate(ks)}, **{"s_" + s_: v for s_, v in state.items()}}
+    try:
+        M = T.ns["Model"](species=list(species), reactions=reactions, parameters=params)
+    except (AssertionError, ValueError, TypeError, IndexError, KeyError, AttributeError) as e:
+        _prove(c, False, "%s: the model cannot be built (%s: %s)" % (tag, type(e).__name__, str(e)[:80]), "massaction model construction fails",
+               dict(kind="massaction", species=list(species), rxns=[list(r) for r in rxns], named=named, mode="stochastic", route="bare",
+                    domain=domain, rxn=0, syms=syms))
+        return
     for route, mode, vals in _eval_routes(interp, c, M, state, V, t, routes, modes=modes):
         base = dict(kind="massaction", species=list(species), rxns=[list(r) for r in rxns], named=named, mode=mode,
                     route=route, domain=domain)
